@@ -91,6 +91,25 @@ func runApiStream(o Opts, prop, oracle string, mix apiMix) error {
 			ds = append(ds, genReply(r, "GetDeviceResponse", genID(r), 0, nil))
 		}
 		apiCase(s, cfg, getDevicesCase(), Script{Kind: "datagrams", Datagrams: ds}, "call/GetDevices", nil, true)
+		{
+			// discovery replies with repeats (A A B B, A B A B, ...), a controller with serial number 0 among them, and a
+			// configuration that names controller 0
+			pool := []uint32{405419896, 303986753, 0, genID(r)}
+			cfg2 := Cfg{Devices: []DevCfg{{ID: 0, Name: "unassigned"}, {ID: 405419896, Name: "alpha", Addr: netip.MustParseAddrPort("10.0.0.9:60000"), Proto: "udp"}}}
+			if i%2 == 1 {
+				cfg2 = genCfg(r, pool)
+			}
+			ds2 := [][]byte{}
+			pat := [][]int{{0, 0, 1, 1}, {0, 1, 0, 1}, {0, 0, 0}, {2, 0, 2}, {0, 1, 1, 0, 3, 3, 0}, {3, 2, 2, 3, 1, 1}}[i%6]
+			replies := map[int][]byte{}
+			for _, k := range pat {
+				if _, ok := replies[k]; !ok || r.Intn(3) == 0 { // the same controller may answer with the same or a changed record
+					replies[k] = genReply(r, "GetDeviceResponse", pool[k], 0, nil)
+				}
+				ds2 = append(ds2, replies[k])
+			}
+			apiCase(s, cfg2, getDevicesCase(), Script{Kind: "datagrams", Datagrams: ds2}, "call/GetDevices-repeats", nil, true)
+		}
 
 		if mix.histories {
 			// one client, a sequence of calls; then two clients used alternately: requests must not depend on earlier calls
@@ -201,6 +220,15 @@ func runApiStream(o Opts, prop, oracle string, mix apiMix) error {
 				}
 			}
 		}
+	}
+	// SetDoorPasscodes with far more than four passcodes: the request carries the first four, whatever follows
+	for _, n := range []int{5, 256, 257, 258, 259, 260, 515, 516} {
+		forcePasscodes = n
+		id := genID(r)
+		oc := genOp(r, 25, id, false)
+		forcePasscodes = 0
+		reply := genReply(r, oc.Resp, id, 0, nil)
+		apiCase(s, Cfg{}, oc, Script{Kind: "datagrams", Datagrams: [][]byte{reply}}, "long-list/SetDoorPasscodes", nil, true)
 	}
 	if mix.histories && o.Replay == "" {
 		// a long-lived client: after hundreds and thousands of calls a request, its route and the result are what a brand-new
@@ -404,7 +432,49 @@ func netC06(s *Sink, tier string) {
 			}
 		}
 	}
+	// a controller configured for TCP at an address where only UDP is open (the TCP port refuses the connection): the call
+	// fails, and nothing is sent over UDP instead
+	{
+		ctl := uint32(710000900)
+		devs := []uhppote.Device{{DeviceID: ctl, Address: types.ControllerAddr{AddrPort: netip.AddrPortFrom(netip.AddrFrom4([4]byte{127, 0, 0, 1}), uint16(farm.Port))}, Protocol: "tcp"}}
+		u := uhppote.NewUHPPOTE(types.BindAddrFrom(netip.AddrFrom4([4]byte{127, 0, 0, 1}), 0), types.BroadcastAddrFrom(netip.AddrFrom4([4]byte{127, 0, 0, 1}), uint16(farm.Port)), types.ListenAddrFrom(netip.AddrFrom4([4]byte{127, 0, 0, 1}), 60001), T, devs, false)
+		nextIndex++
+		farm.Plan(nextIndex, Behaviour{})
+		farm.ResetLog()
+		_, err := u.GetEvent(ctl, nextIndex)
+		calls++
+		time.Sleep(10 * time.Millisecond)
+		for _, ev := range farm.Log() {
+			s.Fail(map[string]any{"op": "net-route", "path": "tcp-refused"}, fmt.Sprintf("a controller configured for TCP whose TCP port refuses the connection was sent the request over %s (call result: %v)", ev.Proto, err))
+			break
+		}
+	}
+	// a controller configured for UDP whose port is closed when the request is sent (ICMP port unreachable) and opens 100 ms
+	// later: the one request of the call was lost - no second one arrives
+	closedPortProbe(s, time.Second)
 	s.Extra["net_calls"] = calls
+}
+
+func closedPortProbe(s *Sink, T time.Duration) {
+	p := freeUDPPort()
+	ctl := uint32(710000901)
+	devs := []uhppote.Device{{DeviceID: ctl, Address: types.ControllerAddr{AddrPort: netip.AddrPortFrom(netip.AddrFrom4([4]byte{127, 0, 0, 1}), uint16(p))}, Protocol: "udp"}}
+	u := uhppote.NewUHPPOTE(types.BindAddrFrom(netip.AddrFrom4([4]byte{127, 0, 0, 1}), 0), types.BroadcastAddr{}, types.ListenAddrFrom(netip.AddrFrom4([4]byte{127, 0, 0, 1}), 60001), T, devs, false)
+	done := make(chan struct{})
+	go func() { defer close(done); u.GetEvent(ctl, 1) }()
+	time.Sleep(100 * time.Millisecond)
+	c, err := net.ListenUDP("udp4", &net.UDPAddr{IP: net.IPv4(127, 0, 0, 1), Port: p})
+	if err != nil {
+		<-done
+		return
+	}
+	defer c.Close()
+	c.SetReadDeadline(time.Now().Add(600 * time.Millisecond))
+	buf := make([]byte, 2048)
+	if n, from, rerr := c.ReadFromUDP(buf); rerr == nil {
+		s.Fail(map[string]any{"op": "net-route", "path": "udp-closed-port"}, fmt.Sprintf("a %d-byte datagram from %v arrived at the controller's port after it opened 100 ms into the call: the call sent its request more than once", n, from))
+	}
+	<-done
 }
 
 // socket-level half of C01: the REAL driver on loopback. Every operation, on each delivery path, with the client in and out
@@ -466,5 +536,6 @@ func netWire(s *Sink, r *Rand, tier string) {
 			}
 		}
 	}
+	closedPortProbe(s, time.Second)
 	s.Extra["net_wire_calls"] = calls
 }
